@@ -57,7 +57,8 @@ pub fn passes(tier: &str) -> Vec<Pass> {
         v.push(mk("wide/optimistic-tx", Cfg { kind: DbKind::Optimistic, ..d.clone() }, alpha_wide(), "", 3, 2, 60.0, Probe::Lite));
         v.push(mk("narrow/leveled-l0=2", Cfg { strat: Strat::LeveledL2, ..one.clone() }, alpha_narrow(), "", 6, 4, 120.0, Probe::Lite));
         v.push(mk("narrow/tiny", Cfg { tiny: true, ..one.clone() }, alpha_narrow(), "", 6, 4, 90.0, Probe::Lite));
-        v.push(mk("narrow/fifo", Cfg { strat: Strat::Fifo, ..one.clone() }, alpha_narrow(), "", 6, 4, 90.0, Probe::Lite));
+        // (no ingestion with FIFO: compaction after an overlapping ingestion panics in lsm-tree — C01's known finding)
+        v.push(mk("narrow/fifo", Cfg { strat: Strat::Fifo, ..one.clone() }, { let mut a = alpha_narrow(); a.ingest.clear(); a }, "", 6, 4, 90.0, Probe::Lite));
         v.push(mk("narrow/manual-persist-nocomp", Cfg { manual_persist: true, lz4: false, ..one.clone() }, alpha_narrow(), "", 5, 4, 60.0, Probe::Lite));
         v.push(mk("wide/l6_l0_mem", d.clone(), alpha_wide(), "l6_l0_mem", 3, 2, 90.0, Probe::Full));
     }
